@@ -5,10 +5,10 @@ export GOFLAGS=-mod=mod GOPROXY=off GOSUMDB=off GOTOOLCHAIN=local
 for n in "$@"; do
   S=/tmp/sc/h_$n; rm -rf $S; mkdir -p $S/src $S/out
   git -C /repo archive HEAD | tar -x -C $S/src
-  [ -d /tmp/sc/keep ] && { [ -f /tmp/sc/keep/ast_contracts_verif.go ] && cp /tmp/sc/keep/ast_contracts_verif.go $S/src/ast/contracts_verif.go; [ -f /tmp/sc/keep/lexer_contracts_verif.go ] && cp /tmp/sc/keep/lexer_contracts_verif.go $S/src/lexer/contracts_verif.go; }
+
   (cd $S/src && patch -s -p1 < /verif/selftest/harmless/$n.diff) || { echo "$n: patch failed"; continue; }
   (cd $S/src && env -u GOFLAGS go build ./... ) || { echo "$n: build failed"; continue; }
-  VERIF_REPO=$S/src VERIF_OUT=$S/out ./bin/bornovc verify > /tmp/sc/h_$n.log 2>&1
+  VERIF_REPO=$S/src VERIF_OUT=$S/out ${BORNOVC:-./bin/bornovc} verify > /tmp/sc/h_$n.log 2>&1
   echo "== $n: $(grep '^summary' /tmp/sc/h_$n.log)"
   grep -E '^FAIL|ENGINE' /tmp/sc/h_$n.log | cut -c1-220 | head -12
   rm -rf $S
